@@ -129,6 +129,43 @@ def install(reg, src):
             c.loop(1 if kind == "LinearCombination" else 2, inv, havoc={"d": T.opt(T.int_())})
 
     deg_contract(f"{M}:_compute_degree_impl", 1)
+
+    reg.mark_inline(f"{M}:_product_degree", f"{M}:_power_degree")      # comparisons and a max: executed as written
+    # ---- helper shared by the twins (present after the D8 repair): degree of the elements of a vector operand
+    if f"{M}:_vector_elements_degree" in src.funcs:
+        @reg.contract(f"{M}:_vector_elements_degree", props=["C04", "C15"], cases={"vector": ["VectorVariable", "VectorExpression"]},
+                      group="deg", rank=4)
+        def _(c):
+            from .vecspec import vec_deg, vec_syn, vec_nd0
+            from .seqtheory import VLEN
+            sp = Spec(c.ip)
+            vk = c.choose("vector", ["VectorVariable", "VectorExpression"])
+            v = c.arg("vector", T.obj(vk, exact=True) if vk else T.obj("VectorExpression"))
+            c.decreases(v)
+            vr = sp.ref(v)
+            c.requires(vec_nd0(sp, vr), name="no division by the literal constant 0 in any element")
+            c.returns(T.opt(T.int_()))
+            allp, mx = vec_deg(sp, vr)
+            synv = vec_syn(sp, vr)
+            n = VLEN(vr)
+
+            def post(res):
+                if res is None:
+                    return z3.BoolVal(True)
+                if isinstance(res, SOpt):
+                    d = res.val.t
+                    return z3.Implies(z3.Not(res.isnone), z3.And(d >= 0, allp(n), mx(n) <= d, z3.Implies(d <= 1, synv)))
+                d = res.t if isinstance(res, SInt) else z3.IntVal(int(res))
+                return z3.And(d >= 0, allp(n), mx(n) <= d, z3.Implies(d <= 1, synv))
+            c.ensures("element degrees", post)
+            if c.verifying and vk == "VectorExpression":
+                SYNALL = sym.fn("SYNALL", sym.Ref, sym.I, sym.B)
+
+                def inv(st):
+                    md = st.var("max_deg")
+                    mdt = md.t if isinstance(md, SInt) else z3.IntVal(md)
+                    return [mdt >= 0, allp(st.i), mx(st.i) <= mdt, z3.Implies(mdt <= 1, SYNALL(vr, st.i))]
+                c.loop(1, inv, havoc={"d": T.opt(T.int_())})
     deg_contract(f"{M}:_compute_degree_cached", 2, extra_args=("expr_id",))
     deg_contract(f"{M}:compute_degree", 3)
     deg_contract(f"{M}:_compute_degree_iterative", 2,
